@@ -4,12 +4,15 @@ import H2V.Lemmas.CompState
   ConnFidP, part 7 — every function of ConnStreams.lean (streams.rs) as a sequence of elementary steps:
   the frame entry points, the teardown functions, `poll_complete`, and all handle operations.
 -/
+set_option linter.unusedSectionVars false
 namespace H2V.Lemmas.ConnFidP
 open H2V H2V.Model H2V.Model.Conn H2V.Lemmas.ConnWakeP
 
 section
-variable {P : Perm} {s0 s : Streams}
+variable {P : Perm} {s0 s : Streams} (hg : P.gone)
+include hg
 
+omit hg in
 theorem closedAt_modStreamW {s : Streams} {k : Nat} (j : Nat) (f : Stream → Stream × List String)
     (hf : ∀ a, Quiet a (f a).1) (h : ClosedAt s k) : ClosedAt (s.modStreamW j f) k := by
   intro a ha
@@ -22,6 +25,7 @@ theorem closedAt_modStreamW {s : Streams} {k : Nat} (j : Nat) (f : Stream → St
     | some x => rw [hs] at ha; cases ha; exact (hf x).closed (h x hs)
   · exact h a ha
 
+omit hg in
 theorem closedAt_modStream_state {s : Streams} (k : Nat) (f : Stream → Stream) (hk : ∀ a, (f a).key = a.key)
     (hf : ∀ a, (f a).state.isClosed = true) : ClosedAt (s.modStream k f) k := by
   intro a ha
@@ -31,6 +35,7 @@ theorem closedAt_modStream_state {s : Streams} (k : Nat) (f : Stream → Stream)
   | none => rw [hs] at ha; cases ha
   | some x => rw [hs] at ha; cases ha; exact hf x
 
+omit hg in
 theorem closedAt_recvHandleError (s : Streams) (k : Nat) (e : PErr) : ClosedAt (s.recvHandleError k e) k := by
   unfold Streams.recvHandleError
   refine closedAt_modStreamW _ _ notifyPush_quiet (closedAt_modStreamW _ _ notifyRecv_quiet
@@ -38,6 +43,7 @@ theorem closedAt_recvHandleError (s : Streams) (k : Nat) (e : PErr) : ClosedAt (
   have := H2V.Lemmas.Comp.handleError_closed a.state e
   exact (H2V.Lemmas.Comp.isClosed_iff _).mpr this
 
+omit hg in
 theorem closedAt_recvRecvEof (s : Streams) (k : Nat) : ClosedAt (s.recvRecvEof k) k := by
   unfold Streams.recvRecvEof
   refine closedAt_modStreamW _ _ notifyPush_quiet (closedAt_modStreamW _ _ notifyRecv_quiet
@@ -45,6 +51,7 @@ theorem closedAt_recvRecvEof (s : Streams) (k : Nat) : ClosedAt (s.recvRecvEof k
   have := H2V.Lemmas.Comp.recvEof_closed a.state
   exact (H2V.Lemmas.Comp.isClosed_iff _).mpr this
 
+omit hg in
 theorem closedAt_recvRecvReset {s s' : Streams} {k : Nat} {r : Reason} {u : Unit}
     (h : s.recvRecvReset k r = (s', .ok u)) : ClosedAt s' k := by
   unfold Streams.recvRecvReset at h
@@ -62,7 +69,7 @@ theorem transition_acc {α : Type} (k : Nat) (f : Streams → Streams × α)
     (hf : ∀ {s' : Streams}, Tr P s0 s' → Tr P s0 (f s').1) (h : Tr P s0 s) :
     Tr P s0 (s.transition k f).1 := by
   unfold Streams.transition
-  exact transitionAfter_acc _ _ (hf h)
+  exact transitionAfter_acc hg _ _ (hf h)
 grind_pattern transition_acc => Tr P s0 (Prod.fst (Streams.transition s k f))
 
 @[grind ←] theorem resetOnRecvStreamErr_acc (k : Nat) (r : Except PErr Unit) (hc : P.cut k) (h : Tr P s0 s) :
@@ -95,35 +102,35 @@ grind_pattern transition_acc => Tr P s0 (Prod.fst (Streams.transition s k f))
 /-- the closure `handle_error` / `recv_go_away` run on a stream -/
 theorem errClosure_acc (e : PErr) (k : Nat) (hc : P.cut k) (h : Tr P s0 s) :
     Tr P s0 (s.transition k fun s => ((s.recvHandleError k e).sendHandleError k, ())).1 := by
-  have h1 := sendHandleError_acc k hc (closedAt_recvHandleError s k e) (recvHandleError_acc k e h)
+  have h1 := sendHandleError_acc hg k hc (closedAt_recvHandleError s k e) (recvHandleError_acc hg k e h)
   simp only [Streams.transition]
-  exact transitionAfter_acc _ _ h1
+  exact transitionAfter_acc hg _ _ h1
 /-- the closure `recv_eof` runs on a stream -/
 theorem eofClosure_acc (k : Nat) (hc : P.cut k) (h : Tr P s0 s) :
     Tr P s0 (s.transition k fun s => ((s.recvRecvEof k).sendHandleError k, ())).1 := by
-  have h1 := sendHandleError_acc k hc (closedAt_recvRecvEof s k) (recvRecvEof_acc k h)
+  have h1 := sendHandleError_acc hg k hc (closedAt_recvRecvEof s k) (recvRecvEof_acc hg k h)
   simp only [Streams.transition]
-  exact transitionAfter_acc _ _ h1
+  exact transitionAfter_acc hg _ _ h1
 
 @[grind ←] theorem handleError_acc (e : PErr) (hc : CutAll P) (h : Tr P s0 s) : Tr P s0 (s.handleError e).1 := by
   unfold Streams.handleError
-  exact setConnError_acc e (storeForEach_acc _ (fun k h => errClosure_acc e k (hc k) h) h)
+  exact setConnError_acc e (storeForEach_acc hg _ (fun k h => errClosure_acc hg e k (hc k) h) h)
 @[grind ←] theorem recvGoAwayFrame_acc (l : Nat) (r : Reason) (d : Bytes) (hc : CutAll P) (h : Tr P s0 s) :
     Tr P s0 (s.recvGoAwayFrame l r d).1 := by
   unfold Streams.recvGoAwayFrame
-  have h0 := sendRecvGoAway_acc (P := P) l h
+  have h0 := sendRecvGoAway_acc hg l h
   split
   · next heq => rw [heq] at h0; exact h0
   · next s1 _ heq =>
     rw [heq] at h0
-    refine setConnError_acc _ (storeForEach_acc _ (fun k h => ?_) h0)
+    refine setConnError_acc _ (storeForEach_acc hg _ (fun k h => ?_) h0)
     dsimp only
     split
-    · exact errClosure_acc _ k (hc k) h
+    · exact errClosure_acc hg _ k (hc k) h
     · exact h
 @[grind ←] theorem recvEof_acc (b : Bool) (hc : CutAll P) (h : Tr P s0 s) : Tr P s0 (s.recvEof b) := by
   unfold Streams.recvEof
-  refine clearQueues_acc b (storeForEach_acc _ (fun k h => eofClosure_acc k (hc k) h) ?_)
+  refine clearQueues_acc hg b (storeForEach_acc hg _ (fun k h => eofClosure_acc hg k (hc k) h) ?_)
   split
   · exact setConnError_acc _ h
   · exact h
@@ -165,7 +172,7 @@ theorem cancelPromises_acc (l : List Nat) (hr : RclearAll P) (h : Tr P s0 s) :
     fid_grind
 @[grind ←] theorem dropStreamRef_acc (k : Nat) (hr : RclearAll P) (h : Tr P s0 s) : Tr P s0 (s.dropStreamRef k) := by
   unfold Streams.dropStreamRef
-  have hc := fun s l => @cancelPromises_acc P s0 s l hr
+  have hc := fun s l => @cancelPromises_acc P s0 s hg l hr
   have := hr k
   fid_grind
 @[grind ←] theorem sendRequest_acc (b : Bool) (f : List Hpack.Field) (eos : Bool) (p : Option Nat)
@@ -207,7 +214,7 @@ theorem cancelPromises_acc (l : List Nat) (hr : RclearAll P) (h : Tr P s0 s) :
 
 @[grind ←] theorem refPollData_acc (k : Nat) (t : String) (hp : P.rpop k) (h : Tr P s0 s) : Tr P s0 (s.refPollData k t).1 := by
   unfold Streams.refPollData
-  have := recvPollData_acc k t hp h
+  have := recvPollData_acc hg k t hp h
   fid_grind
 @[grind ←] theorem pollPendingOpen_acc (p : Option Nat) (t : String) (h : Tr P s0 s) : Tr P s0 (s.pollPendingOpen p t).1 := by
   unfold Streams.pollPendingOpen; fid_grind
